@@ -71,7 +71,55 @@ def record_spec(discipline, gender):
     T = utils().FIELD_EVENT_RECORDS_BY_GENDER
     g = gender.lower() if isinstance(gender, str) else 'all'
     base = re.match(r'[A-Za-z]*', discipline).group(0).upper()          # 'JT800' -> 'JT', 'sp 7.26kg' -> 'SP'
-    return T[g if g in ('m', 'f') else 'all'].get(base)
+    return T[g if g in ('m', 'f') else 'all'].get(base)        # (that the rows in use are the written ones: records_table_obligations)
+
+
+def records_table_obligations(run):
+    """the record a mark is measured against is the one WRITTEN in the table of the caller's gender: the rows in use equal the
+    literals of the source text (nothing rewrites them at import or later), the rows are distinct objects, and the overall row
+    is the larger of the two per event"""
+    import ast, inspect
+    u = utils()
+    T = u.FIELD_EVENT_RECORDS_BY_GENDER
+    src = ast.parse(inspect.getsource(u))
+    lit = {}
+    for n in ast.walk(src):
+        tgt = n.target if isinstance(n, ast.AnnAssign) else (n.targets[0] if isinstance(n, ast.Assign) and len(n.targets) == 1 else None)
+        if isinstance(tgt, ast.Name) and tgt.id == 'FIELD_EVENT_RECORDS_BY_GENDER' and isinstance(getattr(n, 'value', None), ast.Call):
+            for kw in n.value.keywords:
+                try:
+                    if isinstance(kw.value, ast.Call):
+                        lit[kw.arg] = {k2.arg: ast.literal_eval(k2.value) for k2 in kw.value.keywords}
+                    else:
+                        lit[kw.arg] = ast.literal_eval(kw.value)
+                except Exception:
+                    pass
+    checks = []
+    for g in ('m', 'f'):
+        if g in lit:
+            checks.append(('records/row-%s-in-use-is-the-literal-of-the-source' % g, T.get(g) == lit[g],
+                           'row %r in use %r, written in the source %r' % (g, {k: v for k, v in (T.get(g) or {}).items() if lit[g].get(k) != v}, {k: v for k, v in lit[g].items() if (T.get(g) or {}).get(k) != v})))
+    checks.append(('records/rows-are-distinct-objects', len({id(T[k]) for k in T}) == len(T), 'two gender rows are one dict object'))
+    if 'm' in T and 'f' in T and 'all' in T:
+        src_m, src_f = lit.get('m', T['m']), lit.get('f', T['f'])
+        want = {k: max(src_m[k], src_f.get(k, src_m[k])) for k in src_m}
+        checks.append(('records/overall-row-is-the-larger-of-the-two', T['all'] == want, 'overall row %r' % ({k: v for k, v in T['all'].items() if want.get(k) != v},)))
+    for name, ok, what in checks:
+        run.record(name, 'ground', 'proved' if ok else 'refuted', 'ground-evaluation', 0.0, 'records')
+        if not ok:
+            # a mark between 120 % of the written record and 120 % of the record in use shows it on the real function
+            w = None
+            for g in ('m', 'f'):
+                for k, v in (lit.get(g) or {}).items():
+                    used = (T.get(g) or {}).get(k)
+                    if used is not None and used != v:
+                        mark = '%.2f' % (min(used, v) * 1.2 + abs(used - v) * 0.6)
+                        w = (k, mark, g.upper(), None)
+            if w and contract(*w):
+                run.violation(name, dict(call='check_performance_for_discipline(%r, %r, gender=%r)' % w[:3], observed=contract(*w), input=list(w)), True)
+            else:
+                run.violation(name, dict(call='FIELD_EVENT_RECORDS_BY_GENDER', observed=what, input=None), False)
+    return lit
 
 
 def result_ok(discipline, gender, prec, text, outcome):
@@ -474,6 +522,7 @@ def main(tier, seed):
                'speed limits checked with a 0.01 m/s tolerance (the code compares binary quotients)')
     from pyvc.frames import frame_obligations
     frame_obligations(run, [utils().check_performance_for_discipline, utils().field_event_record, utils().get_distance])
+    records_table_obligations(run)
     shapes = text_shapes(tier)
     J = []
     # one discipline on each side of every distance threshold of the cascade (200, 400, 800), the three with the h:m:s re-reading, road, field
